@@ -24,6 +24,7 @@ before it (or free Verus text when outside an @extract block).
     @rule R2                             `.map(Self)`/`.map(Ctor)` eta-expansion (payload: closure text per match)
     @rule R3 loop ORD index NAME         iter_mut loop -> index loop
     @rule pubfields                      struct fields made pub                      [R0]
+    @rule macro-inst MACRO $v=Value      instantiate a macro_rules body like the invocation MACRO!(Value, ..) does [R9]
     @rule sub "A" => "B" [#K]            labelled literal substitution (counted, reported)
   @end
 """
@@ -496,6 +497,21 @@ class Extractor:
                 j += 1
             self.count("R0-pubfields", n)
             return
+        if rule == "macro-inst":
+            # @rule macro-inst MACRO $var=Value : instantiate a macro_rules transcriber the way the
+            # invocation `MACRO!(Value, ...)` in the same file does (first macro argument only)
+            mac = args[1]
+            var, _, val = args[2].partition("=")
+            if not re.search(r"\b%s!\(\s*%s\s*," % (re.escape(mac), re.escape(val)), src):
+                raise GenError("rule macro-inst: no invocation %s!(%s, ...) in source" % (mac, val))
+            n = 0
+            for m in re.finditer(re.escape(var) + r"\b", src[item.start:item.end]):
+                add(item.start + m.start(), item.start + m.end(), val, ("rule", "R9-macro-inst", cur_label, d.line))
+                n += 1
+            if n == 0:
+                raise GenError("rule macro-inst: %s does not occur in %s" % (var, cur_label))
+            self.count("R9-macro-inst", n)
+            return
         if rule == "sub":
             a, rest = _unquote(d.arg[len("sub"):].strip())
             if not rest.startswith("=>"):
@@ -591,11 +607,24 @@ class Extractor:
         raise GenError("%s:%d: unknown rule %s" % (self.unit, d.line, rule))
 
 
+def expand_includes(nodes, depth=0):
+    """`@include x.vci` pastes a template fragment (which may itself contain @extract blocks)."""
+    out = []
+    for node in nodes:
+        if node[0] == "include" and node[1].endswith(".vci"):
+            if depth > 5:
+                raise GenError("include depth")
+            out.extend(expand_includes(parse_template(os.path.join(ROOT, node[1])), depth + 1))
+        else:
+            out.append(node)
+    return out
+
+
 def generate(unit, canary=None):
     """Expand contracts/<unit>.vc.  Returns (text, piecemap, extractor).
     piecemap: list of (start_char, end_char, tag)."""
     tpl = os.path.join(ROOT, "contracts", unit + ".vc")
-    nodes = parse_template(tpl)
+    nodes = expand_includes(parse_template(tpl))
     ex = Extractor(unit)
     pieces = []
     for node in nodes:
